@@ -11,9 +11,9 @@ META = {
             'distinct versions) the resolved one with an allowed difference and fewer vulnerabilities; the level bounds the difference to the ORIGINAL base after any '
             'number of rounds (given DiffClassLaws: same-major / same-major.minor / same are transitive) and the loop stops within |versions| rounds (given HonoursPins: '
             're-resolution yields the pinned version); every Relax step builds the new requirement from a version strictly above the highest matching one with an allowed '
-            'difference; suggestMavenVersion (after fix 3e9bb9ee) never proposes a version below current and only allowed differences; level None touches nothing in all three. '
-            'Two places where the unchanged code leaves the statement are recorded as known findings (nil dereference for a range no known version satisfies; an "update" '
-            'to an equal, differently spelled version). Both assumed laws are checked on every generated universe.',
+            'difference; suggestMavenVersion (after fixes 3e9bb9ee, 63128997) proposes only known versions STRICTLY above current with an allowed difference, for every input '
+            '(full strength; a range no known version satisfies keeps the requirement); level None touches nothing in all three. '
+            'Both assumed laws are checked on every generated universe.',
     'note': 'Trusted: Lean kernel (axioms propext/Quot.sound/Classical.choice at most); deps.dev semver (Compare, Difference, constraint matching) and the Maven/npm resolvers are '
             'parameters, supplied per case as tables computed with the same libraries; mavenutil.CompareVersions (guava flavours, commons date versions) is taken as the '
             'order the library defines; slices.SortFunc/BinarySearchFunc contracts; harness/cmd/c11gen + lean/Drivers/C11.lean. The relax loop across several requirements '
@@ -24,8 +24,8 @@ O = 'Scalibr.Override.'
 R = 'Scalibr.Relax.'
 S = 'Scalibr.Suggest.'
 THEOREMS = [U + 'C11_allows_table', U + 'C11_allows_meaning', O + 'C11_override_step', O + 'C11_cumulative', O + 'C11_terminates', O + 'C11_terminates_bound',
-            O + 'C11_none_untouched_override', R + 'C11_relax_step', R + 'C11_none_untouched_relax', S + 'C11_update_step_partial', S + 'C11_update_strict_partial',
-            S + 'C11_none_untouched_update', S + 'C11_update_panic_witness', S + 'C11_update_equal_witness']
+            O + 'C11_none_untouched_override', R + 'C11_relax_step', R + 'C11_none_untouched_relax', S + 'C11_update_step', S + 'C11_update_no_current', S + 'C11_update_reported',
+            S + 'C11_none_untouched_update', S + 'C11_update_fixed_witnesses']
 
 
 def regenerate_allows(ctx):
